@@ -244,7 +244,8 @@ static ASMJIT_FAVOR_SIZE Error validate(InstDB::Mode mode, const BaseInst& inst,
   InstId inst_id = inst.inst_id();
   InstOptions options = inst.options();
 
-  if (ASMJIT_UNLIKELY(!Inst::is_defined_id(inst_id))) {
+  // Inst::kIdNone is a defined id (it has a row), but it is not an instruction: it has no signature that could refuse anything.
+  if (ASMJIT_UNLIKELY(!Inst::is_defined_id(inst_id) || inst_id == Inst::kIdNone)) {
     return make_error(Error::kInvalidInstruction);
   }
 
@@ -929,6 +930,11 @@ Next:
       if (ASMJIT_UNLIKELY(!mem_op || extra_reg.type() != mem_op->base_type())) {
         return make_error(Error::kInvalidExtraReg);
       }
+
+      // A virtual register is only legal when the caller enables virtual registers (Compiler).
+      if (ASMJIT_UNLIKELY(!extra_reg.is_phys_reg() && uint32_t(validation_flags & ValidationFlags::kEnableVirtRegs) == 0)) {
+        return make_error(Error::kIllegalVirtReg);
+      }
     }
     else if (common_info.has_flag(InstDB::InstFlags::kEvex)) {
       // Validate AVX-512 {k}.
@@ -938,6 +944,16 @@ Next:
 
       if (ASMJIT_UNLIKELY(extra_reg.id() == 0 || !common_info.has_avx512_k())) {
         return make_error(Error::kInvalidKMaskUse);
+      }
+
+      // There are only 8 mask registers ({k36} would be silently encoded as {k4}); a virtual one needs a Compiler.
+      if (extra_reg.is_phys_reg()) {
+        if (ASMJIT_UNLIKELY(extra_reg.id() > 7u)) {
+          return make_error(Error::kInvalidPhysId);
+        }
+      }
+      else if (ASMJIT_UNLIKELY(uint32_t(validation_flags & ValidationFlags::kEnableVirtRegs) == 0)) {
+        return make_error(Error::kIllegalVirtReg);
       }
     }
     else {
